@@ -93,6 +93,23 @@ def property_on_impl(ant, srcs, c):
         mr = solve_with(ant, list(reversed(srcs)))
         if max(abs(mr.current - m0.current)) > tol * scale:
             return 'currents depend on the order in which the sources are registered (%.3g)' % (max(abs(mr.current - m0.current)) / scale)
+    # the same voltages written in the other constructor form — magnitude and phase in degrees, also with a negative
+    # magnitude and the phase turned by half a turn (the usual way to write an antiphase feed): same excitation, same solution
+    from mininec.mininec import Excitation, Impedance_Load
+    for form in ('polar', 'polar-neg'):
+        mf = antgen.build(ant)
+        for p_, z_ in loads_of(ant, len(mf.pulses)):
+            mf.register_load(Impedance_Load(z_), p_)
+        for k_, (p_, v_) in enumerate(srcs):
+            mag, ph = abs(v_), math.degrees(math.atan2(v_.imag, v_.real))
+            if form == 'polar-neg' and k_ % 2 == 0:
+                mag, ph = -mag, ph + 180.0
+            mf.register_source(Excitation(mag, ph), p_)
+        mf.compute()
+        if max(abs(mf.current - m0.current)) > max(tol, 1e-9) * scale:
+            return ('the voltages %r given as magnitude and phase%s give currents that deviate by %.3g from those of the complex form'
+                    % ([v_ for _, v_ in srcs], ' (negative magnitude, phase + 180)' if form == 'polar-neg' else '',
+                       max(abs(mf.current - m0.current)) / scale))
     # the same object solved again with all voltages multiplied by c (nothing else touched)
     i0 = m0.current.copy()
     z0 = [s.impedance for s in m0.sources]
